@@ -1058,6 +1058,35 @@ func init() {
 					}
 				}
 			}
+			// a rename that fails (the temporary file on another device: EXDEV) followed by a crash: whatever saveFailFile
+			// does after the failed rename, a kill at any of its later system calls leaves no partial file under a
+			// name the next run would pick up
+			for _, call := range []string{"openat", "write", "close"} {
+				for k := 1; k < 400; k++ {
+					dir, _ := os.MkdirTemp(tmp, "c16x-")
+					cmd := exec.Command("strace", "-f", "-o", "/dev/null", "-e", "trace=renameat,renameat2,"+call,
+						"-e", "inject=renameat,renameat2:error=EXDEV",
+						"-e", fmt.Sprintf("inject=%s:signal=SIGKILL:when=%d", call, k), self, "savechild", dir, name, strconv.Itoa(lines))
+					_, err := cmd.CombinedOutput()
+					killed := false
+					if ee, ok := err.(*exec.ExitError); ok && !ee.Exited() {
+						killed = true // ended by the signal (a save that reports the failed rename exits by itself)
+					}
+					for _, f := range listFailFiles(dir, name) {
+						got, _ := os.ReadFile(f)
+						if string(got) != string(want) {
+							m.violate(violation{"C16", "partial", fmt.Sprintf("rename failed with EXDEV, then killed at %s #%d of a %d-line save: a file matching the fail-file pattern holds %d of %d bytes", call, k, lines, len(got), len(want)),
+								map[string]string{"lines": fmt.Sprint(lines), "call": call, "k": fmt.Sprint(k), "errno": "EXDEV+kill", "file": filepath.Base(f)}})
+						}
+					}
+					os.RemoveAll(dir)
+					if !killed {
+						break
+					}
+					m.eval(fmt.Sprintf("lines=%d exdev-then-kill-at=%s#%d", lines, call, k), true)
+					m.tag("exdev-then-killed-at-" + call)
+				}
+			}
 			m.tag(fmt.Sprintf("crash-points-lines%d=%d", lines, total))
 			os.RemoveAll(ref)
 		}
@@ -1387,6 +1416,45 @@ func init() {
 				m.violate(violation{"C18", "rune-table", what, map[string]string{"table": tc.name}})
 			}
 		}
+		// RuneFrom over many tables (more than a byte can number): a rune of every table is produced
+		for _, nt := range []int{255, 256, 257, 300} {
+			tabs := make([]*unicode.RangeTable, nt)
+			for k := range tabs {
+				tabs[k] = &unicode.RangeTable{R16: []unicode.Range16{{Lo: uint16(0x4e00 + k), Hi: uint16(0x4e00 + k), Stride: 1}}}
+			}
+			seen := map[rune]bool{}
+			what := ""
+			func() {
+				defer func() {
+					if p := recover(); p != nil {
+						what = fmt.Sprintf("RuneFrom(nil, %d tables): panic %v", nt, p)
+					}
+				}()
+				g := rapid.RuneFrom(nil, tabs...)
+				t := rapid.VerifNewT(newRecTB("rt"), rapid.VerifRandStream(r.u64(), false), false)
+				for k := 0; k < 100*nt && len(seen) < nt; k++ {
+					c := rapid.VerifValue(g, t)
+					if c < 0x4e00 || c >= rune(0x4e00+nt) {
+						what = fmt.Sprintf("RuneFrom(nil, %d tables) produced %U, which is in none of the tables", nt, c)
+						return
+					}
+					seen[c] = true
+				}
+			}()
+			m.tag("rune-many-tables")
+			m.eval(fmt.Sprint("rune-many-tables ", nt), true)
+			if what == "" && len(seen) < nt {
+				for k := 0; k < nt; k++ {
+					if !seen[rune(0x4e00+k)] {
+						what = fmt.Sprintf("RuneFrom(nil, %d one-rune tables): %U (table %d) was not produced in %d draws (%d of %d runes seen)", nt, 0x4e00+k, k, 100*nt, len(seen), nt)
+						break
+					}
+				}
+			}
+			if what != "" {
+				m.violate(violation{"C18", "rune-table", what, map[string]string{"tables": fmt.Sprint(nt)}})
+			}
+		}
 		// the public full-range generator of every integer kind hits both ends of its Go type
 		kindEdges(r, m)
 		// fresh seeds: two Check calls without -rapid.seed explore different test cases
@@ -1626,6 +1694,42 @@ func raceScenario(which string) {
 				}
 			}
 		}
+		// a failure signalled on the T of a Custom generator function by a goroutine that outlives the function (the
+		// property joins it before it returns) falsifies the test case, too
+		{
+			fl := baseFlags()
+			fl.Checks = 20
+			fl.Seed = 13
+			withFlags(fl, func() {
+				tb := newRecTB("late")
+				runTB(func() {
+					rapid.VerifCheckTB(tb, farDeadline(), func(t *rapid.T) {
+						var wg sync.WaitGroup
+						release := make(chan struct{})
+						g := rapid.Custom(func(ct *rapid.T) int {
+							v := rapid.IntRange(0, 9).Draw(ct, "v")
+							wg.Add(1)
+							go func() {
+								defer wg.Done()
+								<-release
+								_ = ct.Name()
+								ct.Logf("late %d", v)
+								ct.Errorf("late failure %d", v)
+							}()
+							return v
+						})
+						_ = g.Draw(t, "g")
+						_ = rapid.Bool().Draw(t, "more")
+						close(release)
+						wg.Wait()
+					})
+				})
+				if !tb.failed {
+					fmt.Println("LOST: a failure signalled from a goroutine on the T of a Custom generator function, after the function returned, did not fail the test")
+					os.Exit(67)
+				}
+			})
+		}
 		for _, verbose := range []bool{false, true} {
 			fl := baseFlags()
 			fl.Verbose = verbose
@@ -1703,6 +1807,89 @@ func raceScenario(which string) {
 			if results[i] != results[0] {
 				fmt.Println("DIFF: concurrent checks with the same seed drew different values")
 				os.Exit(67)
+			}
+		}
+		// a drawn value belongs to the check that drew it: checks that overwrite the slices, maps and pointers they drew
+		// (sorting in place, reusing a buffer) neither disturb each other nor their own later draws — every check draws
+		// what a check with generators of its own, which leaves its values alone, draws
+		{
+			build := func() []*rapid.Generator[any] {
+				return []*rapid.Generator[any]{
+					rapid.Permutation([]int{1, 2, 3, 4}).AsAny(),
+					rapid.Permutation([]int{7}).AsAny(),
+					rapid.Permutation([]int{5, 6}).AsAny(),
+					rapid.SliceOfN(rapid.IntRange(0, 9), 0, 4).AsAny(),
+					rapid.SliceOfNDistinct(rapid.IntRange(0, 9), 0, 4, rapid.ID[int]).AsAny(),
+					rapid.MapOfN(rapid.IntRange(0, 9), rapid.IntRange(0, 9), 0, 3).AsAny(),
+					rapid.Ptr(rapid.IntRange(0, 9), true).AsAny(),
+					rapid.SliceOfBytesMatching(`[a-c]{0,5}`).AsAny(),
+					rapid.SampledFrom([][]int{{1, 2}, {3}}).AsAny(),
+				}
+			}
+			scribble := func(v any) {
+				switch x := v.(type) {
+				case []int:
+					for k := range x {
+						x[k] = -1 - k
+					}
+				case map[int]int:
+					for k := range x {
+						x[k] = -7
+					}
+					x[-1] = -1
+				case *int:
+					if x != nil {
+						*x = -9
+					}
+				case []byte:
+					for k := range x {
+						x[k] = '!'
+					}
+				}
+			}
+			run := func(gens []*rapid.Generator[any], name string, overwrite bool) string {
+				var b strings.Builder
+				tb := newRecTB(name)
+				runTB(func() {
+					rapid.VerifDoCheck(tb, farDeadline(), 80, 777, "", false, func(t *rapid.T) {
+						held := make([]any, len(gens))
+						for j, g := range gens {
+							held[j] = g.Draw(t, "v")
+							if p, ok := held[j].(*int); ok && p != nil {
+								fmt.Fprintf(&b, "%d:&%d;", j, *p)
+							} else {
+								fmt.Fprintf(&b, "%d:%v;", j, held[j])
+							}
+						}
+						if overwrite {
+							for j := range held {
+								if _, sampled := held[j].([]int); sampled && j == len(held)-1 {
+									continue // SampledFrom hands out the caller's own elements: they are the caller's to keep intact
+								}
+								scribble(held[j])
+							}
+						}
+					})
+				})
+				return b.String()
+			}
+			ref := run(build(), "own", false)
+			shared := build()
+			var wg3 sync.WaitGroup
+			got := make([]string, 6)
+			for i := range got {
+				wg3.Add(1)
+				go func(i int) {
+					defer wg3.Done()
+					got[i] = run(shared, fmt.Sprintf("shared%d", i), true)
+				}(i)
+			}
+			wg3.Wait()
+			for i := range got {
+				if got[i] != ref {
+					fmt.Printf("DIFF: check %d of 6 that share generators and overwrite the values they drew did not draw what a check alone draws: %s\n", i, firstDiff(strings.ReplaceAll(ref, ";", "\n"), strings.ReplaceAll(got[i], ";", "\n")))
+					os.Exit(67)
+				}
 			}
 		}
 		// an unresolved Deferred met by several checks at once, while its function is still running for the first of
